@@ -9,7 +9,9 @@ package utils
 //@ ghost VT VTrace
 //@ ufunc Vis(VTrace, jet.Node) VTrace
 
-// every node type the parser can put into a tree (catch nodes hang off TryNode.Catch and are never passed as a Node)
+// every node type the parser can put into a tree (catch nodes hang off TryNode.Catch and are never passed as a Node:
+// the parser side of this is proved at the two places a statement enters a list, (*Template).itemList and
+// (*Template).parseTemplate, obligations only-statements-enter-a-list / only-statements-enter-the-root-list)
 //@ pred InUniverse(n jet.Node) := istype(n, "*jet.ListNode") || istype(n, "*jet.ActionNode") || istype(n, "*jet.ChainNode") || istype(n, "*jet.CommandNode") || istype(n, "*jet.IfNode") || istype(n, "*jet.PipeNode") || istype(n, "*jet.RangeNode") || istype(n, "*jet.BlockNode") || istype(n, "*jet.IncludeNode") || istype(n, "*jet.YieldNode") || istype(n, "*jet.SetNode") || istype(n, "*jet.AdditiveExprNode") || istype(n, "*jet.MultiplicativeExprNode") || istype(n, "*jet.ComparativeExprNode") || istype(n, "*jet.NumericComparativeExprNode") || istype(n, "*jet.LogicalExprNode") || istype(n, "*jet.CallExprNode") || istype(n, "*jet.NotExprNode") || istype(n, "*jet.TernaryExprNode") || istype(n, "*jet.IndexExprNode") || istype(n, "*jet.SliceExprNode") || istype(n, "*jet.TryNode") || istype(n, "*jet.ReturnNode") || istype(n, "*jet.UnderscoreNode") || istype(n, "*jet.TextNode") || istype(n, "*jet.IdentifierNode") || istype(n, "*jet.StringNode") || istype(n, "*jet.NilNode") || istype(n, "*jet.NumberNode") || istype(n, "*jet.BoolNode") || istype(n, "*jet.FieldNode")
 
 //@ func (utils.Visitor).Visit
